@@ -11,8 +11,8 @@
 package c08
 
 import (
-	"bytes"
 	"bufio"
+	"bytes"
 	"encoding/json"
 	"fmt"
 	"os"
